@@ -544,6 +544,7 @@ func (v *Verifier) verifyFunctionFixed(fn *ssa.Function, unrollAll int, fixLen m
 	st := &State{H: map[string]*Term{}, Next: u.next0}
 	u.facts = append(u.facts, Gt(u.next0, IntLit(0)))
 	u.facts = append(u.facts, v.axioms...)
+	v.addGlobalFacts(u, fn, st)
 	nAx := len(v.axioms)
 	fr := &Frame{u: u, fn: fn, fi: v.info(fn), contract: u.contract, guard: True, top: true, depth: 0}
 	for pi, p := range fn.Params {
@@ -1961,4 +1962,44 @@ func (v *Verifier) scanFieldAddrs() {
 	}
 	fieldTagging = true
 	layoutCache = map[types.Type][]string{}
+}
+
+// addGlobalFacts: assumed facts about call-initialised, never-written globals of the packages this function touches.
+func (v *Verifier) addGlobalFacts(u *Unit, fn *ssa.Function, st *State) {
+	for _, gf := range v.lib.GlobalFacts {
+		var pkg *ssa.Package
+		for _, p := range v.prog.Prog.AllPackages() {
+			if shortPkg(p.Pkg.Path()) == gf.Pkg {
+				pkg = p
+			}
+		}
+		if pkg == nil {
+			continue
+		}
+		env := &Env{vars: map[string]*CV{}, st: st, lib: v.lib, prog: v.prog, unit: u}
+		env.resolve = func(name string, cur *Env) *CV {
+			if m, ok := pkg.Members[name].(*ssa.Global); ok {
+				if v.storedGlobals[m] {
+					return nil
+				}
+				ref := v.globalRef(m)
+				t := m.Type().(*types.Pointer).Elem()
+				if _, isArr := t.Underlying().(*types.Array); isArr {
+					return cvOfVal(&Val{K: VPtr, T: m.Type(), Ref: ref, Off: IntLit(0)})
+				}
+				gv := cur.st.load(t, ref, IntLit(0))
+				u.facts = append(u.facts, validFacts(gv, u.next0, nil)...)
+				registerBelow(gv, u.next0)
+				return cvOfVal(gv)
+			}
+			return nil
+		}
+		t, err := env.evalBool(gf.C.E)
+		if err != nil {
+			u.errs = append(u.errs, fmt.Sprintf("%s: globalfact %s: %v", gf.C.Where, gf.C.Src, err))
+			continue
+		}
+		u.facts = append(u.facts, t)
+		u.assumed["assumed initial value of package variables ("+gf.C.Where+"): "+gf.C.Src] = true
+	}
 }
